@@ -248,3 +248,33 @@ def std_gen(fams, per_quick=3, per_thorough=60, **kw):
                 meta[cid] = (e[0], "%02X" % e[1])
         return lines, meta
     return gen
+
+
+def sweep_gen(fams=None, coins=(-2, -1, 0, 1, 2, 3, 4, 5), nodev=True):
+    """deterministic additions to a search pool: every encoding with all pointers at PC+k (k in coins), and every encoding once
+    with no device attached."""
+    def gen(rng, tier):
+        encs = encodings_of(fams) if fams else cases.encodings()
+        lines, meta, k = [], {}, 0
+        for e in encs:
+            for c in coins:
+                cid = "w%d" % k; k += 1
+                lines.append(cases.make_case(rng, cid, e, coin=c)); meta[cid] = (e[0], "%02X coin=%d" % (e[1], c))
+            if nodev:
+                cid = "w%d" % k; k += 1
+                lines.append(cases.make_case(rng, cid, e, io=0)); meta[cid] = (e[0], "%02X nodev" % e[1])
+        return lines, meta
+    return gen
+
+
+def join_gens(*gens):
+    def gen(rng, tier):
+        lines, meta = [], {}
+        for j, g in enumerate(gens):
+            l, m = g(rng, tier)
+            for x in l:
+                t = x.split(" ", 2)
+                lines.append(t[0] + " G%d" % j + t[1] + " " + t[2])
+            meta.update({"G%d" % j + kk: v for kk, v in m.items()})
+        return lines, meta
+    return gen
